@@ -18,7 +18,7 @@ func (x *Exec) execInstr(fr *Frame, ins ssa.Instruction) {
 		o := x.newObj(KCell, elem, zeroValue(elem))
 		fr.env[i] = refTo(o)
 	case *ssa.FieldAddr:
-		r := x.val(fr, i.X).(VRef)
+		r := asRef(x.val(fr, i.X))
 		var alts []RefAlt
 		for _, a := range r.alts {
 			if a.obj == nil {
@@ -106,7 +106,7 @@ func (x *Exec) execInstr(fr *Frame, ins ssa.Instruction) {
 	case *ssa.BinOp:
 		fr.env[i] = x.binop(fr, i.Op, x.val(fr, i.X), x.val(fr, i.Y), i.X.Type(), i.Y.Type(), i.Pos())
 	case *ssa.Store:
-		x.store(fr, x.val(fr, i.Addr).(VRef), x.val(fr, i.Val), i.Pos())
+		x.store(fr, asRef(x.val(fr, i.Addr)), x.val(fr, i.Val), i.Pos())
 	case *ssa.Phi:
 	case *ssa.If:
 		c := asBool(x.val(fr, i.Cond))
@@ -224,7 +224,7 @@ func (x *Exec) execInstr(fr *Frame, ins ssa.Instruction) {
 		x.execSlice(fr, i)
 	case *ssa.Lookup:
 		if _, ok := i.X.Type().Underlying().(*types.Map); ok {
-			m := x.val(fr, i.X).(VRef)
+			m := asRef(x.val(fr, i.X))
 			v, found := x.mapLookup(fr, m, x.val(fr, i.Index), i.X.Type().Underlying().(*types.Map).Elem(), i.Pos())
 			if i.CommaOk {
 				fr.env[i] = VTuple{[]Value{v, VBool{found}}}
@@ -246,7 +246,7 @@ func (x *Exec) execInstr(fr *Frame, ins ssa.Instruction) {
 			}
 		}
 	case *ssa.MapUpdate:
-		x.mapUpdate(fr, x.val(fr, i.Map).(VRef), x.val(fr, i.Key), x.val(fr, i.Value), i.Pos())
+		x.mapUpdate(fr, asRef(x.val(fr, i.Map)), x.val(fr, i.Key), x.val(fr, i.Value), i.Pos())
 	case *ssa.Range:
 		switch xv := x.val(fr, i.X).(type) {
 		case VRef:
@@ -256,6 +256,9 @@ func (x *Exec) execInstr(fr *Frame, ins ssa.Instruction) {
 				notEncodable("range over symbolic string")
 			}
 			fr.env[i] = &VIter{isStr: true, str: xv.alts[0].s}
+		case nil:
+			// undefined value: every path reaching this point already panicked
+			fr.env[i] = &VIter{}
 		default:
 			notEncodable("range over %T", xv)
 		}
@@ -268,6 +271,14 @@ func (x *Exec) execInstr(fr *Frame, ins ssa.Instruction) {
 	default:
 		notEncodable("instruction %T at %s", ins, x.framePos(fr, ins.Pos()))
 	}
+}
+
+// asRef: a reference value; an undefined value (produced only on paths that all panicked) has no alternatives
+func asRef(v Value) VRef {
+	if v == nil {
+		return VRef{[]RefAlt{{ts.False, nil, nil}}}
+	}
+	return v.(VRef)
 }
 
 func (x *Exec) execNext(fr *Frame, i *ssa.Next) {
@@ -385,26 +396,44 @@ func (x *Exec) execSlice(fr *Frame, i *ssa.Slice) {
 	}
 	switch xv := x.val(fr, i.X).(type) {
 	case VStr:
+		// bounds may be small ite-trees of constants (e.g. strings.LastIndex applied per alternative): enumerate them
+		boundVals := func(t *Term, def int64) []*Term {
+			if t == nil {
+				return []*Term{nil}
+			}
+			if t.isConst() {
+				return []*Term{t}
+			}
+			leaves, ok := iteLeaves(t)
+			if !ok {
+				notEncodable("symbolic string slice at %s", x.framePos(fr, i.Pos()))
+			}
+			return leaves
+		}
 		var alts []StrAlt
 		for _, a := range xv.alts {
-			l, h := 0, len(a.s)
-			if lo != nil {
-				if !lo.isConst() {
-					notEncodable("symbolic string slice at %s", x.framePos(fr, i.Pos()))
+			for _, lc := range boundVals(lo, 0) {
+				for _, hc := range boundVals(hi, 0) {
+					g := a.g
+					l, h := 0, len(a.s)
+					if lc != nil {
+						l = int(lc.sval())
+						g = mkAnd(g, mkEq(lo, lc))
+					}
+					if hc != nil {
+						h = int(hc.sval())
+						g = mkAnd(g, mkEq(hi, hc))
+					}
+					if g.isFalse() {
+						continue
+					}
+					if l < 0 || h > len(a.s) || l > h {
+						x.panicIf(fr, g, "string slice bounds out of range", i.Pos())
+						continue
+					}
+					alts = append(alts, StrAlt{g, a.s[l:h]})
 				}
-				l = int(lo.sval())
 			}
-			if hi != nil {
-				if !hi.isConst() {
-					notEncodable("symbolic string slice at %s", x.framePos(fr, i.Pos()))
-				}
-				h = int(hi.sval())
-			}
-			if l < 0 || h > len(a.s) || l > h {
-				x.panicIf(fr, a.g, "string slice bounds out of range", i.Pos())
-				continue
-			}
-			alts = append(alts, StrAlt{a.g, a.s[l:h]})
 		}
 		fr.env[i] = normStr(alts)
 	case VRef: // pointer to array
@@ -467,7 +496,7 @@ func (x *Exec) execUnOp(fr *Frame, i *ssa.UnOp) {
 	v := x.val(fr, i.X)
 	switch i.Op {
 	case token.MUL:
-		fr.env[i] = x.load(fr, v.(VRef), i.Pos())
+		fr.env[i] = x.load(fr, asRef(v), i.Pos())
 	case token.SUB:
 		switch t := v.(type) {
 		case VInt:
@@ -512,6 +541,14 @@ func (x *Exec) freshValue(t types.Type, hint string) Value {
 }
 
 func (x *Exec) binop(fr *Frame, op token.Token, a, b Value, ta, tb types.Type, p token.Pos) Value {
+	if a == nil || b == nil {
+		// an operand is undefined: it was produced on paths that all panicked (dead code in this run)
+		x.warnings["operation on an undefined value (dead path) at "+x.framePos(fr, p)]++
+		if op == token.EQL || op == token.NEQ || op == token.LSS || op == token.LEQ || op == token.GTR || op == token.GEQ {
+			return VBool{ts.False}
+		}
+		return nil
+	}
 	switch av := a.(type) {
 	case VInt:
 		bv, ok := b.(VInt)
@@ -643,7 +680,7 @@ func (x *Exec) binop(fr *Frame, op token.Token, a, b Value, ta, tb types.Type, p
 		bv := b.(VStr)
 		switch op {
 		case token.ADD:
-			if len(av.alts)*len(bv.alts) > 64 {
+			if len(av.alts)*len(bv.alts) > 4096 {
 				// message text built from many alternatives: an opaque string that equals no literal
 				x.warnings["opaque string from a concatenation with more than 64 alternatives at "+x.framePos(fr, p)]++
 				return concreteStr("\x00<opaque>")
@@ -1017,7 +1054,7 @@ func (x *Exec) builtin(fr *Frame, b *ssa.Builtin, c *ssa.CallCommon, args []Valu
 		}
 		return VInt{n}
 	case "delete":
-		x.mapDelete(fr, args[0].(VRef), args[1])
+		x.mapDelete(fr, asRef(args[0]), args[1])
 		return nil
 	case "print", "println", "close":
 		return nil
